@@ -241,7 +241,8 @@ def obs_outline(c, m, om):
         at = []
         for k, (src, e) in enumerate(zip(g["srcs"], g["exp"])):
             li = idx[tuple(src["p"])]
-            a = {"l": li + 1, "def": 1 if not any(src["p"]) else 0, "pts": e["pts"], "on": e["on"], "oracle": [],
+            a = {"l": li + 1, "def": 1 if not any(src["p"]) else 0, "pts": e["pts"], "on": e["on"],
+                 "segs": e.get("segs") or [], "oracle": [],
                  "offs": e["offs"], "oobs": (oat.get(li) or {}).get("offsets", [])}
             if kind == "cubic":
                 og = oby.get("%s.s%d" % (g["name"], k))
@@ -254,7 +255,8 @@ def obs_outline(c, m, om):
                        "nondense": sum(1 for t in o.get("tuples", []) if not t["dense"]),
                        "tuples": [t["tents"] for t in o.get("tuples", [])], "pred": g.get("regions") or [],
                        "draws": draws, "at": at})
-    rec = {"id": c["id"], "check": "outline", "scale": m["scale"], "locs": m["locs"], "glyphs": glyphs}
+    rec = {"id": c["id"], "check": "outline", "scale": m["scale"], "locs": m["locs"], "glyphs": glyphs,
+           "tol": -(-m["scale"] * m["upem"] // 1000)}       # cubic-to-quadratic tolerance (em/1000), scaled, rounded up
     return rec, problems
 
 
@@ -609,7 +611,7 @@ def fixture_record(job, v, st, check):
                 sg = sby[k][n]
                 a = oat.get(k) or {}
                 sa = sg["at"][0] if sg["at"] else {}
-                e = {"l": k + 1, "def": isdef[k], "pts": [], "on": [], "oracle": sa.get("cmds", []),
+                e = {"l": k + 1, "def": isdef[k], "pts": [], "on": [], "segs": [], "oracle": sa.get("cmds", []),
                      "offs": [[x["dx"], x["dy"]] for x in sg.get("components") or []] if kind == "comp" else [],
                      "oobs": a.get("offsets", []) if kind == "comp" else []}
                 if kind == "static" and "cmds" not in sa:
@@ -633,7 +635,7 @@ def fixture_record(job, v, st, check):
             glyphs.append({"name": n, "kind": g["kind"], "hmtx": g["hmtx"] if g["hmtx"] is not None else -1,
                            "vmtx": g["vmtx"] if g["vmtx"] is not None else -1, "at": at})
     rec = {"id": "fixture:" + job["rel"], "check": "outline" if check == "outline" else "metrics", "scale": v["scale"],
-           "locs": v["locs"], "glyphs": glyphs}
+           "locs": v["locs"], "glyphs": glyphs, "tol": -(-v["scale"] * v["upem"] // 1000)}
     if check != "outline":
         mat = {a["loc"]: a for a in v["mvar"]["at"]}
         metrics, defaults = [], []
